@@ -177,6 +177,19 @@ def transform(spec):
             rnd.shuffle(fil["blocks"])
             if fil["blocks"] != before:
                 applied.append("block_order")
+        # the interaction lines inside a block in another order (lines on identical atoms keep their relative
+        # order: they are told apart by position)
+        rnd = random.Random(t["block_perm_seed"] + 7)
+        for blk in new["blocks"]:
+            before = list(blk["inter"])
+            groups = {}
+            for it in blk["inter"]:
+                groups.setdefault((it["sec"], tuple(it["atoms"])), []).append(it)
+            keys = list(groups)
+            rnd.shuffle(keys)
+            blk["inter"] = [it for k in keys for it in groups[k]]
+            if blk["inter"] != before:
+                applied.append("interaction_line_order")
         if not links_conflict(new):
             rnd = random.Random(t["link_perm_seed"])
             for fil in new["files"]:
